@@ -1,8 +1,11 @@
 """C05, link clean-up half: a history machine over a State rooted at a scratch directory.
 
-The model is a flat table slot -> {recorded, touched, why}; "recorded" is set only by the machine's
-own record rules (State.save_link or a relinking checkout that returned), "touched" by every user
-rule.  The harness owns the clock: after every user mutation the mtime of each written file is set
+The model is a flat table slot -> {recorded, touched, why, sig}; "recorded" is set only by the
+machine's own record rules (State.save_link or a relinking checkout that returned) together with
+the record-time snapshot `sig` = (inode, {file: (mtime, bytes)}); "touched"/"why" by every user rule.
+An entry counts as modified when its snapshot now differs from the record-time one (a history that
+restores the exact recorded state - add a file then delete it, rename there and back - is not a
+modification).  The harness owns the clock: after every user mutation the mtime of each written file is set
 with os.utime to `previous + drawn delta`, moved on in 1 us steps until the (float) mtime was never
 seen before for that path, and the stat triple (inode, mtime, size) is verified to differ from the
 one before the mutation (except for the explicit "replace, keep mtime" case where only the inode
@@ -52,7 +55,7 @@ class LinksMachine(TraceMachine):
         os.mkdir(self.root)
         self.cpath = os.path.join(self.dir, "cache")
         self.state = ops.make_state(self.root, os.path.join(self.dir, "st"))
-        self.model = {s: {"recorded": False, "touched": False, "why": None} for s in SLOTS}
+        self.model = {s: {"recorded": False, "touched": False, "why": None, "sig": None} for s in SLOTS}
         self.seen = {}        # abs path -> set of float mtimes ever observed/assigned
         self.k = 0
         self.labels = set()
@@ -82,6 +85,15 @@ class LinksMachine(TraceMachine):
                 out.extend(os.path.join(r, f) for f in fl)
             return sorted(out)
         return [path] if os.path.lexists(path) else []
+
+    def sig(self, path):
+        """Everything observable about an entry: its inode and, per file, (mtime, bytes)."""
+        if not os.path.lexists(path):
+            return None
+        files = {}
+        for f in self.files_of(path):
+            files[os.path.relpath(f, path)] = (os.stat(f).st_mtime, ref.read(f))
+        return (os.lstat(path).st_ino, files)
 
     def observe(self, path):
         """Remember the mtimes an entry's files carry right now (called at record time)."""
@@ -151,7 +163,7 @@ class LinksMachine(TraceMachine):
                     self.write_new(os.path.join(path, *name.split("/")), gen.content_bytes(c), delta)
         self.state.save_link(path, self.fs)
         self.observe(path)
-        self.model[rel] = {"recorded": True, "touched": False, "why": None}
+        self.model[rel] = {"recorded": True, "touched": False, "why": None, "sig": self.sig(path)}
         self.labels.add("record:save_link:" + ("dir" if os.path.isdir(path) else "file"))
 
     @rule(slot=slot_s, kind=st.sampled_from(["file", "dir"]), content=content_s, tree=tree_s,
@@ -179,11 +191,12 @@ class LinksMachine(TraceMachine):
         os.makedirs(os.path.dirname(path), exist_ok=True)
         checkout(path, self.fs, obj, odb, relink=True, state=self.state)
         self.observe(path)
-        self.model[rel] = {"recorded": True, "touched": False, "why": None}
+        self.model[rel] = {"recorded": True, "touched": False, "why": None, "sig": self.sig(path)}
         self.labels.add(f"record:checkout:{link}:" + ("dir" if kind == "dir" else "file"))
 
     # ---- rules: the user changes things ------------------------------------------------------
-    @rule(slot=slot_s, sub=st.integers(0, 5), content=content_s, inplace=st.booleans(), delta=delta_s)
+    @rule(slot=slot_s, sub=st.integers(0, 5), content=content_s,
+          inplace=st.sampled_from([True, True, False]), delta=delta_s)
     @traced
     def user_modify(self, slot, sub, content, inplace, delta):
         rel = self.existing(slot)
@@ -209,7 +222,7 @@ class LinksMachine(TraceMachine):
             self.write_new(f, data, delta)
             self.touch(rel, "modified-recreated")
 
-    @rule(slot=slot_s, content=content_s, keep_mtime=st.booleans(), delta=delta_s)
+    @rule(slot=slot_s, content=content_s, keep_mtime=st.sampled_from([True, True, False]), delta=delta_s)
     @traced
     def user_replace(self, slot, content, keep_mtime, delta):
         """Replace by a new inode (temp sibling + rename); a file may keep its old mtime."""
@@ -353,9 +366,12 @@ class LinksMachine(TraceMachine):
                 continue
             if s in used_rel:
                 guarded[s] = "in-use"
-            elif m["touched"]:
-                guarded[s] = m["why"]
+            elif self.sig(self.p(s)) != m["sig"]:
+                # differs from the record-time snapshot in inode, file set, an mtime or bytes
+                guarded[s] = m["why"] or "changed"
             else:
+                if m["touched"]:
+                    self.labels.add("restored-to-recorded-state")
                 allowed.add(s)
 
         unused = list(self.state.get_unused_links(used, self.fs))
@@ -389,7 +405,7 @@ class LinksMachine(TraceMachine):
                          f"({sorted(set(cache_before) ^ set(cache_after))})")
 
         for u in unused:
-            self.model[u] = {"recorded": False, "touched": False, "why": None}
+            self.model[u] = {"recorded": False, "touched": False, "why": None, "sig": None}
         self.n_removed += len(unused)
 
         # coverage bookkeeping
